@@ -6,7 +6,7 @@ import random
 
 from .. import core, gen, genhist, pymach as pm, sx
 
-THEOREMS = ['C14.serializer_bytes_tied', 'C14.decode_encode', 'C14.decode_unique', 'C14.truncated_is_error', 'C14.unknown_is_error',
+THEOREMS = ['C14.serializer_bytes_tied', 'C14.deserializer_text_is_the_model', 'C14.deserializer_text_is_the_model_gamma_claim', 'C14.deserializer_text_undecodable', 'C14.deserializer_duplicate_keys_outside_model', 'C14.decode_encode', 'C14.decode_unique', 'C14.truncated_is_error', 'C14.unknown_is_error',
             'C14.deserialize_replays_call', 'C14.deserialize_replays_history', 'C14.opcodes_tied']
 
 
